@@ -13,6 +13,10 @@ pub mod c07;
 pub mod c08;
 pub mod c09;
 pub mod c10;
+pub mod c11;
+pub mod c12;
+pub mod c13;
+pub mod curvegen;
 pub mod fxgen;
 pub mod c17;
 pub mod c18;
@@ -30,6 +34,9 @@ pub fn make(id: &str) -> Option<Box<dyn Prop>> {
         "C08" => Some(Box::new(c08::C08::new())),
         "C09" => Some(Box::new(c09::C09::new())),
         "C10" => Some(Box::new(c10::C10::new())),
+        "C11" => Some(Box::new(c11::C11::new())),
+        "C12" => Some(Box::new(c12::C12::new())),
+        "C13" => Some(Box::new(c13::C13::new())),
         "C17" => Some(Box::new(c17::C17::new())),
         "C18" => Some(Box::new(c18::C18::new())),
         "C19" => Some(Box::new(c19::C19::new())),
